@@ -94,6 +94,9 @@ use std::mem::size_of;
 use std::mem::swap;
 use std::mem::take;
 use std::num::NonZeroU32;
+#[cfg(wild_verif)]
+use simrt::sync::Mutex;
+#[cfg(not(wild_verif))]
 use std::sync::Mutex;
 use std::sync::atomic;
 use std::sync::atomic::AtomicBool;
